@@ -14,7 +14,7 @@ Definition view_of (s : state) :=
    (ar_base s, ar_base_by_dim s), (ss_strs s, ss_current s), deftype s, functions s,
    (gosub_stack s, for_stack s, while_stack s),
    (on_error s, err_handle s, err_resume s, err_num s, err_pos s),
-   (stop_pos s, data_pos s), seed s, (ev_enabled s, ev_gosub s, ev_stopped s, ev_suspend s)).
+   (stop_pos s, data_pos s), seed s, (ev_enabled s, ev_gosub s, ev_stopped s, ev_suspend s), math_raise s).
 
 (* the freshly constructed session with the same memory geometry and program *)
 Definition init_like (s : state) : state :=
